@@ -711,6 +711,13 @@ impl Server {
             return;
         };
 
+        // `Analyzer::new` registers the project and dependency namespace
+        // symbols from the resolved lockfile. The parse path below runs it, the
+        // restore path must too: when every background file is a cache hit,
+        // nothing else would declare the dependencies' namespaces, and every
+        // `dep::Item` reference stays undefined.
+        let _ = Analyzer::new(metadata);
+
         // A cache hit restores this file's pass1 state, skipping parse.
         let restored = self
             .incremental
